@@ -272,7 +272,7 @@ class C07(Prop):
                 f = framing.BitcoinFramer()
                 stream = b''
                 for m in case['msgs']:
-                    b = bytearray(f.frame((bytes(m['cmd']), bytes(m['payload']))))
+                    b = bytearray(ref_frame(framing.BITCOIN_MAGIC, bytes(m['cmd']), bytes(m['payload'])))      # the peer's bytes: framed by the reference encoder
                     if m['fault'] == 'sum':
                         b[20] ^= 0x55
                     elif m['fault'] == 'magic':
